@@ -218,7 +218,12 @@ TraceTimeout ==
     /\ IsEvent("Timeout")
     /\ LET o == [k |-> "Timeout", cls |-> "", rep |-> "Timeout"]
            \* Solver!Diverge: the conditioned game is not stopping on the claimed domain
-           allowed == pc = "conditioned" /\ mode = "solve" /\ ~ro.stop
+           \* ... or, the reward phase sweeping EVERY state, on the states outside that domain (a
+           \* rewarded end component that the conditioned play can no longer enter); only games that
+           \* are not stopping to begin with can have one
+           offdom  == pc = "conditioned" /\ mode = "solve" /\ ro.stop /\ ~orc.stopping
+                      /\ ~StoppingOn(Working, States(desc))
+           allowed == (pc = "conditioned" /\ mode = "solve" /\ ~ro.stop) \/ offdom
        IN  /\ fails' = fails \cup (IF allowed THEN {} ELSE {"C06.Timeout pc=" \o pc})
            /\ notes' = notes \cup (IF allowed THEN {"C06.divergedOutsideDomain"} ELSE {})
            /\ Outcome(o)
